@@ -138,7 +138,9 @@ impl Trace {
     }
     pub fn need_dict(&mut self, data: &Data, word: &str) {
         if self.known_dict.insert(word.to_string()) {
-            match data.dict_phonetic(word) {
+            // okkhor's regex generator slices by bytes and panics on non-ASCII input: only reachable here when a context that
+            // should be phonetic shows Bengali auxiliary text (a defect of the library under test, reported by the oracles)
+            match catch_unwind(AssertUnwindSafe(|| data.dict_phonetic(word))).unwrap_or(None) {
                 Some(ws) => { let l = format!("dict {} = {}", esc(word), ws.iter().map(|w| esc(w)).collect::<Vec<_>>().join(" ")); self.line(&l); }
                 None => { let l = format!("dict {} !", esc(word)); self.line(&l); }
             }
